@@ -252,7 +252,7 @@ func (u *Unit) sprintf(st *State, cc *ssa.CallCommon, args []Value) Value {
 	case "%020d":
 		if n, ok := payload(0, SInt); ok {
 			u.note("stub fmt.Sprintf(\"%020d\", n) = pad20(n): the 20-digit zero-padded decimal (assumed); order lemma pad20.mono proved separately")
-			u.decls.Add("pad20", "(declare-fun pad20 (Int) String)")
+			u.declFun("pad20", "(Int) String")
 			return app(SStr, "pad20", n)
 		}
 	case "%s/%d":
